@@ -531,9 +531,8 @@ impl Interpreter {
 
                 // // Add 0x00 to the end if last byte is positive sign
                 match sign {
-                    Sign::Plus => bin_array[bin_array_len - 1] |= 0x00,
+                    Sign::Plus | Sign::NoSign => bin_array[bin_array_len - 1] |= 0x00,
                     Sign::Minus => bin_array[bin_array_len - 1] |= 0x80,
-                    Sign::NoSign => return Err(InterpreterError::InvalidStackOperation("OP_NUM2BIN failed, invalid sign on bigint.")),
                 };
                 state.stack.push_bytes(bin_array);
             }
